@@ -100,6 +100,49 @@ Bridges == {[name |-> c.n \o ":" \o f.n \o ":" \o o.n, text |-> c.s \o f.s \o o.
               c \in {Closers[i] : i \in 1..Len(Closers)}, f \in {Fillers[i] : i \in 1..Len(Fillers)},
               o \in {Openers[i] : i \in 1..Len(Openers)}}
 
+
+(* ---- multi-line string dimension ------------------------------------------------------------------------------ *)
+(* The wrappers of the block-level modes INDENT the fragment (a case lives inside `match`), except the continuation  *)
+(* lines of multi-line strings, which must stay as they are.  The position law therefore has to be exercised with   *)
+(* every kind of multi-line string x nodes in every relation to the string's lines x every slot of the mode:       *)
+(*   MLStrings : triple-quoted (plain, bytes, f-string with an expression on a continuation line), implicit         *)
+(*               concatenation across lines, backslash-continued string, concatenation across a continuation line  *)
+(*   MLNodes   : templates around <S>: node starting on the string's last line and ending later / starting before    *)
+(*               and ending after / entirely before / entirely after on the last line / between two strings         *)
+(*   MLSlots(m): where an expression <E> can sit in a fragment of mode m (body, nested block, guard, header)         *)
+MLStrings == <<NS("triple", "\"\"\"x\n  y\n\"\"\""), NS("triple-end-text", "'''x\ny z'''"),
+               NS("bytes", "b\"\"\"x\ny\"\"\""), NS("fstr", "f\"\"\"x\n{a} {b + c}\ny\"\"\""),
+               NS("fstr-call", "f'''x {a}\n{g(a,\n b)}\n'''"),
+               NS("concat", "('x'\n 'y'\n   'z')"), NS("bs-string", "'x\\\ny'"), NS("bs-concat", "'x' \\\n 'y'"),
+               NS("two-triples", "'''x\ny''' '''z\nw'''")>>
+MLNodes == <<NS("alone", "<S>"),
+             NS("mod-tuple", "<S> % (\n a,\n )"), NS("add-call", "<S> + foo(\n 1)"), NS("tuple-list", "<S>, [\n 1,\n ]"),
+             NS("ifexp-call", "<S> if z else bar(\n 1)"), NS("method", "<S>.format(\n a, b)"), NS("sub", "<S>[\n 0]"),
+             NS("cmp", "<S> == (a,\n b) != c"), NS("after-one-line", "<S> + foo(1) + bar"),
+             NS("around-call", "foo(<S>, c,\n d)"), NS("around-list", "[a, <S>,\n b]"), NS("around-dict", "{a: <S>,\n b: c}"),
+             NS("before", "foo(\n a) + <S>"), NS("between", "<S> + foo(\n a) + <S>"),
+             NS("lambda", "lambda a=<S>: (a,\n b)"), NS("yield-par", "(yield <S>,\n a)")>>
+MLSlots(m) ==
+  LET c == IF m \in NamedModes THEN m ELSE CategoryOf(m) IN
+  CASE c \in {"match_case", "_match_cases"} ->
+         <<"case 1:\n x = <E>", "case a if <E>: pass", "case 1:\n if a:\n  b = <E>\n else:\n  c(<E>)\n d = 1",
+           "case [a, b]:\n return <E>\ncase _:\n pass", "case 1: <E>; e = 2", "case 1:\n def f(a=<E>):\n  return a">>
+    [] c \in {"ExceptHandler", "_ExceptHandlers"} ->
+         <<"except A:\n x = <E>", "except (A, B) as e:\n if a:\n  b = <E>\n c(e)", "except A: <E>; e = 2",
+           "except A:\n pass\nexcept B:\n return <E>">>
+    [] c \in {"stmt", "stmts", "exec", "single"} ->
+         <<"x = <E>", "if a:\n b = <E>\nelse:\n c(<E>)", "def f(a=<E>):\n return a", "for a in <E>:\n b",
+           "class A:\n x = <E>\n y = 1", "with a:\n match b:\n  case 1:\n   c = <E>">>
+    [] c = "_decorator_list" -> <<"@a(<E>)", "@a\n@b(<E>)">>
+    [] c = "keyword" -> <<"k=<E>">>
+    [] c = "comprehension" -> <<"for a in <E> if b">>
+    [] c = "_comprehension_ifs" -> <<"if <E>">>
+    [] c = "arguments" -> <<"a=<E>, *b">>
+    [] c \in {"withitem", "_withitems"} -> <<"<E> as a">>
+    [] c = "pattern" -> <<"'''x\ny''' | (\n 1) | [a,\n b]">>
+    [] c \in {"expr", "expr_all", "expr_arglike", "expr_slice", "Tuple_elt", "_arglike", "_arglikes"} -> <<"<E>">>
+    [] OTHER -> <<>>
+
 (* multi-line layouts, applied by the harness at every position they name *)
 MultiLine == <<"cont-after-token",      \* ` \` newline after token i, for every i
                "cont-after-token-flush",\* same, next line starts at column 0
